@@ -1,6 +1,7 @@
 // All driver logic lives in-crate (rustdds::verif_hooks, mounted from /verif/harness/inrepo)
 // because the objects under test are pub(crate).  The binary only adds a counting allocator so
-// that the C06 driver can measure the bytes allocated while a datagram is handled.
+// that the C06 driver can measure the bytes allocated while a datagram is handled and the
+// growth of the live heap over a case.
 use std::{
   alloc::{GlobalAlloc, Layout, System},
   sync::atomic::{AtomicU64, Ordering},
@@ -8,6 +9,7 @@ use std::{
 
 struct Counting;
 static ALLOCATED: AtomicU64 = AtomicU64::new(0);
+static FREED: AtomicU64 = AtomicU64::new(0);
 
 unsafe impl GlobalAlloc for Counting {
   unsafe fn alloc(&self, l: Layout) -> *mut u8 {
@@ -15,6 +17,7 @@ unsafe impl GlobalAlloc for Counting {
     System.alloc(l)
   }
   unsafe fn dealloc(&self, p: *mut u8, l: Layout) {
+    FREED.fetch_add(l.size() as u64, Ordering::Relaxed);
     System.dealloc(p, l)
   }
   unsafe fn alloc_zeroed(&self, l: Layout) -> *mut u8 {
@@ -24,6 +27,8 @@ unsafe impl GlobalAlloc for Counting {
   unsafe fn realloc(&self, p: *mut u8, l: Layout, new_size: usize) -> *mut u8 {
     if new_size > l.size() {
       ALLOCATED.fetch_add((new_size - l.size()) as u64, Ordering::Relaxed);
+    } else {
+      FREED.fetch_add((l.size() - new_size) as u64, Ordering::Relaxed);
     }
     System.realloc(p, l, new_size)
   }
@@ -36,8 +41,14 @@ fn allocated_total() -> u64 {
   ALLOCATED.load(Ordering::Relaxed)
 }
 
+/// bytes currently allocated
+fn live_total() -> i64 {
+  ALLOCATED.load(Ordering::Relaxed) as i64 - FREED.load(Ordering::Relaxed) as i64
+}
+
 fn main() {
   rustdds::verif_hooks::c06::set_alloc_probe(allocated_total);
+  rustdds::verif_hooks::c06::set_live_probe(live_total);
   let args: Vec<String> = std::env::args().skip(1).collect();
   std::process::exit(rustdds::verif_hooks::main(&args));
 }
